@@ -1,13 +1,29 @@
 package tree
 
+import "strings"
+
 func getListEntrySortFunc(parent Entry) func(a, b Entry) int {
 	// return the comparison function
 	return func(a, b Entry) int {
 		keys := parent.GetSchemaKeys()
 		var cmpResult int
 		for _, v := range keys {
-			aLvSlice := a.getChildren()[v].GetHighestPrecedence(LeafVariantSlice{}, false)
-			bLvSlice := b.getChildren()[v].GetHighestPrecedence(LeafVariantSlice{}, false)
+			aChild, aExists := a.getChildren()[v]
+			bChild, bExists := b.getChildren()[v]
+			var aLvSlice, bLvSlice LeafVariantSlice
+			if aExists && bExists {
+				aLvSlice = aChild.GetHighestPrecedence(LeafVariantSlice{}, false)
+				bLvSlice = bChild.GetHighestPrecedence(LeafVariantSlice{}, false)
+			}
+			// the key leafs are not necessarily part of the tree (e.g. if just a single
+			// attribute of the list entries was loaded), fall back to the key level names then.
+			if len(aLvSlice) == 0 || len(bLvSlice) == 0 {
+				cmpResult = strings.Compare(a.PathName(), b.PathName())
+				if cmpResult != 0 {
+					return cmpResult
+				}
+				continue
+			}
 
 			aEntry := aLvSlice[0]
 			bEntry := bLvSlice[0]
